@@ -32,7 +32,7 @@
     does not transcribe, the function returns [OutOfFuel] (written
     [unmodelled]); the correspondence run counts such an answer as "no
     prediction" (it is reported in the evidence), so it can never stand in for
-    a real outcome.  The file follows /repo as of commit 4b09308 (where/reject/
+    a real outcome.  The file follows /repo as of commit 7fadbdc (where/reject/
     find/has use Liquid equality and truthiness, compact treats a missing
     property as nil, map answers nil for a missing property).
 
@@ -1283,14 +1283,16 @@ Definition apply_filter (async : bool) (c : ctx) (f : fcall) (left : val) : res 
       | None => default_core left d
       end
   (* translate.py Translate.__call__ without plural/context, GetText.__call__:
-     keyword arguments only feed %-interpolation (a keyword named `context` would
-     replace the render context the library binds: not modelled, known finding). *)
+     keyword arguments only feed %-interpolation. *)
   | FT, args | FGettext, args =>
       if forallb (fun a => match a with
-                           | AKw k _ => negb (str_eqb k (lit "plural")) && negb (str_eqb k (lit "context"))
+                           | AKw k _ => negb (str_eqb k (lit "plural"))
                            | _ => false
                            end) args then
         do _ <- mapM (arg_val async c) args;;
+        (* RenderContext.filter binds `context`; a keyword of that name is refused (a1c4a1d) *)
+        if existsb (fun a => match a with AKw k _ => str_eqb k (lit "context") | _ => false end) args
+        then LErr LiquidTypeError None else
         do msg <- to_liquid_string left;;
         do text <- tr_gettext c msg;;
         rmap VStr (format_message text)
